@@ -133,7 +133,7 @@ CHECKS["C02"] = {
         {"pkg": _SS, "run": "^TestVerifCtl_C02_", "inst": ["pkg/secretstore/secret_store_messages.go"], Q: {"timeout": 600}, T: {"timeout": 3400, "shards": 8}},
         {"pkg": ".", "run": "^TestVerif_C02_", "inst": ["store_message.go", "internal/queue/simple.go", "internal/queue/priority.go"], Q: {"timeout": 900}, T: {"timeout": 3400, "shards": 8}},
     ],
-    "mandatory_labels": {"all": ["tree/edge-attempt", "tree/duplicate", "tree/out-of-order-success", "random/edge-attempt", "random/duplicate",
+    "mandatory_labels": {"all": ["write-fault/requeued-behind-the-next-message", "tree/edge-attempt", "tree/duplicate", "tree/out-of-order-success", "random/edge-attempt", "random/duplicate",
                                  "random/out-of-order-success", "random/re-registration", "random/two-senders", "random/push-before-store", "random/same-sender-device-on-two-groups", "concurrent/dfs-schedules", "concurrent/contended-lock", "pipeline/arrival-beyond-key-window", "pipeline/undecryptable-below-decryptable"]},
 }
 
@@ -443,7 +443,7 @@ for _k, _v in _ADDED5.items():
         CHECKS[_k]["level_text"] += " " + _v
 _ADDED6 = {
     "C01": "Single transient datastore write or read failures during opens (an honest message refused for good because of one is a violation).",
-    "C02": "Every third message of a sender has no content at all.",
+    "C02": "Every third message of a sender has no content at all. `TestVerif_C02_TransientWriteFailure`: one failing write while a message is opened; the next message is opened first, then the failed one again (it is still inside the window).",
     "C03": "Forged entries also arrive by replication from a branch concurrent with the victim's history (a replica that merged nothing, Lamport time 1).",
     "C04": "Controlled schedules (DFS + rapid) of overlapping index passes of the writer's task and the replication task over a log that grows meanwhile (instrumented index; the final state must be the state of the entries held).",
     "C05": "Single transient datastore write or read failures while an announcement is registered, also a re-delivered one (an announced key must be usable). Distribution half: one device may deactivate the group after its activation and activate it again at the end (others join meanwhile).",
